@@ -1,6 +1,7 @@
 //! Conformance harness: binds the TLA+ specifications under /verif/spec to the real crate (instrumented copy).
 //!   seq-replay   spec -> impl: replay TLC-generated sequential cases, compare with the L1 prediction, write the
 //!                traces of every disagreeing execution (and a sample of agreeing ones) for TLC trace validation
+mod conc;
 mod seq;
 mod term;
 
@@ -17,6 +18,8 @@ fn main() {
   match cmd.as_str() {
     "seq-replay" => seq_replay(),
     "seq-one" => seq_one(),
+    "conc" => conc_explore(),
+    "conc-one" => conc_one(),
     _ => {
       eprintln!("usage: harness seq-replay|seq-one ...");
       std::process::exit(2);
@@ -143,4 +146,48 @@ fn seq_replay() {
   let l2: Vec<serde_json::Value> = l2bad.into_iter().map(|((p, _), (c, ex))| serde_json::json!({"prop": p, "count": c, "case": ex})).collect();
   let summary = serde_json::json!({"cases": n, "agree": agree, "differ": differ, "nonok_confirmed": nonok, "nontrivial": nontrivial, "ops": ops, "l2bad": l2, "diffs": diffs});
   println!("{}", summary);
+}
+
+/// explore the schedules of every case of a catalogue file
+fn conc_explore() {
+  let cases: Vec<conc::CCase> = serde_json::from_str(&std::fs::read_to_string(arg("--cases").expect("--cases")).unwrap()).unwrap();
+  let mode = arg("--mode").unwrap_or("dfs".into());
+  let bound: usize = arg("--bound").and_then(|s| s.parse().ok()).unwrap_or(2);
+  let max_runs: u64 = arg("--max-runs").and_then(|s| s.parse().ok()).unwrap_or(2000);
+  let seed: u64 = arg("--seed").and_then(|s| s.parse().ok()).unwrap_or(1);
+  let budget: u64 = arg("--budget").and_then(|s| s.parse().ok()).unwrap_or(60_000);
+  let shard: usize = arg("--shard").and_then(|s| s.parse().ok()).unwrap_or(0);
+  let of: usize = arg("--of").and_then(|s| s.parse().ok()).unwrap_or(1);
+  let mut out = std::io::BufWriter::new(std::fs::File::create(arg("--out").expect("--out")).unwrap());
+  let mut scheds = vec![];
+  let mut per_case = vec![];
+  for (i, c) in cases.iter().enumerate() {
+    if i % of != shard {
+      continue;
+    }
+    let t0 = std::time::Instant::now();
+    let e = conc::explore(c, &mode, bound, max_runs, seed, (i as u64 + 1) * 1_000_000, &mut out, &mut scheds, budget);
+    per_case.push(serde_json::json!({"case": c.name, "runs": e.runs, "distinct_traces": e.distinct, "exhausted_within_bound": e.exhausted, "ms": t0.elapsed().as_millis() as u64}));
+  }
+  out.flush().unwrap();
+  if let Some(p) = arg("--scheds") {
+    std::fs::write(p, serde_json::to_string(&scheds).unwrap()).unwrap();
+  }
+  println!("{}", serde_json::json!({"cases": per_case}));
+}
+
+/// replay one schedule of one concurrent case: {"case": CCase, "strategy": {"dfs":[..]} | {"random": seed}}
+fn conc_one() {
+  let v: serde_json::Value = serde_json::from_str(&std::fs::read_to_string(arg("--case").expect("--case")).unwrap()).unwrap();
+  let case: conc::CCase = serde_json::from_value(v["case"].clone()).unwrap();
+  let strat = if let Some(p) = v["strategy"].get("dfs") {
+    arx_vstd::rt::Strategy::Dfs { prefix: serde_json::from_value(p.clone()).unwrap() }
+  } else {
+    arx_vstd::rt::Strategy::Random { seed: v["strategy"]["random"].as_u64().unwrap_or(1) }
+  };
+  let r = conc::run_ccase(&case, strat, false, 60_000);
+  let (lines, _) = conc::trace_of(1, &case, &r);
+  for l in lines {
+    println!("{l}");
+  }
 }
